@@ -22,6 +22,7 @@ func init() {
 			ruleMetaSlot(c, "C06.R6")
 			ruleFileWriterAllowList(c, "C06.R7")
 			ruleRollbackUndoesFrees(c, "C06.R8")
+			c08R2(c, "C06.R9") // after a failed commit the allocator is rebuilt from the committed state (pages of visible states stay out of the free set)
 		},
 		CHA: func(c *Ctx) {
 			ruleFreeSetEntry(c, "C06.R3")
